@@ -88,7 +88,7 @@ func Load(dir string, overlay map[string][]byte, patterns []string) (*Explorer, 
 	ex := &Explorer{
 		Prog: prog, Pkgs: pkgs, Fset: prog.Fset,
 		MaxSteps: 20_000_000, MaxPaths: 200000, Workers: runtime.NumCPU(), TimeoutMs: 60000,
-		KnownActive: map[string]bool{}, SampleMax: 40,
+		KnownActive: map[string]bool{}, SampleMax: 400,
 		intercepts: map[string]*intercept{}, initAllow: map[string]bool{},
 	}
 	rt := prog.ImportedPackage("runtime")
